@@ -113,6 +113,18 @@ def kv (s key : String) : String :=
   | some t => (t.drop (key.length + 1)).toString
   | none => ""
 
+/-- `soak`: the first 8 bytes of the harness's Data /s with content "soak", and the LpPacket that carries
+    them as fragment 0 of 2 with the given 8-byte sequence number -/
+def soakFragment : Bytes := [0x06, 0x12, 0x07, 0x03, 0x08, 0x01, 0x73, 0x15]
+
+def soakFrame (seq : Nat) (frag : Bytes) : Bytes :=
+  let be8 : Bytes := (List.range 8).map fun k => (seq / 256 ^ (7 - k)) % 256
+  let h1 : Bytes := [0x51, 0x08]
+  let h2 : Bytes := [0x52, 0x01, 0x00, 0x53, 0x01, 0x02, 0x50, frag.length]
+  let inner : Bytes := h1 ++ be8 ++ h2 ++ frag
+  let h0 : Bytes := [0x64, inner.length]
+  h0 ++ inner
+
 def storeStats (st : List (Nat × List Bytes)) : String :=
   let slots := (st.map (·.2.length)).sum
   let bytes := (st.map fun e => (e.2.map (·.length)).sum).sum
@@ -263,6 +275,28 @@ def step (st : St) (op : String) (got : String) : StepResult St :=
             { st := { st1 with link := l' }, expected := some expected, spec := sp ++ spRej ++ spBound ++ spHash, cov := tags,
               nontrivial := l'.store.length != st.link.store.length || dl != .nothing }
     | _, _ => { st := st, expected := some "skip" }
+  | ["soak", _ms] =>
+    -- a lossy peer for a while: first fragments (index 0 of 2) of 4096 messages, base sequences 2^40 + 2i,
+    -- round and round; whatever the number of rounds the store then holds these 4096 incomplete messages
+    match st.mode with
+    | .link s =>
+      let sp := crashSpec "handleIncomingFrame" "link-soak" op got
+      if !st.synced then { st := st, expected := none, spec := sp } else
+      let dec : Bytes → Option Pkt := fun x => match readPacket s x with | .ok p => some p | _ => none
+      let cfg : Cfg := ⟨st.cfgReasm, st.cfgThreads, dec⟩
+      let frag : Bytes := (soakFragment).take 8
+      let res := (List.range 4096).foldl (fun (acc : Option LinkSt) i =>
+        match acc with
+        | none => none
+        | some l => (handleFrame cfg l (soakFrame (1099511627776 + 2 * i) frag)).map (·.1)) (some st.link)
+      match res with
+      | none => { st := st, expected := some "PANIC model", spec := sp }
+      | some l' =>
+        let exp := s!"store={storeStats l'.store} cnt={l'.nInInterests}/{l'.nInData} qs=1"
+        { st := { st with link := l', frames := st.frames + 4096, frameBytes := st.frameBytes + 4096 * 28,
+                          prevStore := kv got "store", prevCnt := kv got "cnt" },
+          expected := some exp, spec := sp, cov := ["link-soak"], nontrivial := true }
+    | _ => { st := st, expected := some "skip" }
   | ["st", chunkText] =>
     match st.mode, (chunkText.splitOn ",").mapM parseChunk with
     | .stream, some chunks =>
